@@ -82,6 +82,19 @@ def make(rng, tier):
         for k in sc.keys:
             sc.ops.append("storeget %s" % G.rawhex(k))
         scs.append(sc)
+    # clients that keep pipelining commands at and after the shutdown signal must not keep run() from returning
+    sc = N.Scenario("flood", "maxconn=8", ["flood 4 6000", "sleep 300", "shutdown", "waitrun 4000"])
+    sc.kind, sc.sets, sc.nclients, sc.keys = "flood", {}, 0, []
+    scs.append(sc)
+    # a pipelined burst of GETs whose replies exceed the 8 KiB write buffer many times, shutdown in the middle
+    val = b"V" * 3000
+    for j in range({"quick": 3, "thorough": 20}[tier]):
+        gets = arr(bulk(b"GET"), bulk(b"gk")) * 40
+        ops = ["conn c0", "send c0 %s" % G.rawhex(arr(bulk(b"SET"), bulk(b"gk"), bulk(val))), "recv c0 5 5000",
+               "send c0 %s" % G.rawhex(gets), "sleep %d" % j, "shutdown", "waitrun 4000", "recv c0 eof 5000"]
+        sc = N.Scenario("getburst%d" % j, "maxconn=8", ops)
+        sc.kind, sc.sets, sc.nclients, sc.keys, sc.replen = "getburst", {}, 0, [], len(bulk(val))
+        scs.append(sc)
     # shutdown while a handler is in the middle of writing a large reply to a slow (not dead) reader: the reply must arrive whole
     n = 32000000
     ops = ["conn w", "send w %s" % G.rawhex(b"*3\r\n" + bulk(b"SET") + bulk(b"huge") + b"$%d\r\n" % n), "send w %dx5a" % n, "send w 0d0a", "recv w 5 20000",
@@ -126,6 +139,21 @@ def main(tier, seed):
             continue
         o = {op: sc.out[i + 1] for i, op in enumerate(sc.ops) if i + 1 < len(sc.out)}
         wr = next((sc.out[i + 1] for i, op in enumerate(sc.ops) if op.startswith("waitrun")), "missing")
+        if sc.kind == "flood":
+            if not wr.startswith("returned"):
+                rep.failing.append({"what": "run() did not return within 4 s after the shutdown signal while 4 clients kept pipelining commands", "waitrun": wr})
+            continue
+        if sc.kind == "getburst":
+            if not wr.startswith("returned"):
+                rep.failing.append({"what": "run() did not return within 4 s after the shutdown signal (client with a pipelined burst of GETs)", "waitrun": wr})
+                continue
+            line = o.get("recv c0 eof 5000", "missing")
+            st, nb = (line.split(":", 2) + ["", ""])[:2]
+            nbytes = int(nb) if nb.isdigit() else -1
+            if st not in ("eof", "reset") or nbytes < 0 or nbytes % sc.replen != 0:
+                rep.failing.append({"what": "a pipelining client received %d bytes after its burst of GETs: not a whole number of %d-byte replies "
+                                            "(torn reply at shutdown)" % (nbytes, sc.replen), "kind": sc.kind, "ops": [x[:70] for x in sc.ops]})
+            continue
         if sc.kind == "slow-reader":
             head = o.get("recv w 11 20000", "missing")
             rest = o.get("recv w eof 30000", "missing")
@@ -183,7 +211,8 @@ def main(tier, seed):
         "rule": "shutdown fired while 1-3 clients are idle / have sent half a request / are in the middle of a burst of 20-60 pipelined "
                 "SETs / are sending a 3 MB SET / mixed; run() must return within 4 s, every client stream must be a whole number of "
                 "replies then end of stream, every SET whose reply was received must be in the store; a client that is slowly reading a 32 MB "
-                "reply when shutdown fires must receive it whole; plus the recorded blocked-writer "
+                "reply when shutdown fires must receive it whole; a pipelined burst of 40 GETs with 3 KB replies must end on a reply boundary; "
+                "four clients that keep pipelining commands must not keep run() from returning; plus the recorded blocked-writer "
                 "scenario; distinct = client-state families",
         "kinds": kinds,
         "samples": [{"kind": scs[0].kind, "ops": [x[:60] for x in scs[0].ops[:8]], "out": [x[:60] for x in (scs[0].out or [])[:8]]}],
